@@ -1075,6 +1075,79 @@ var panicTable = map[string]string{
 	"console.mustNewLogger":                      "logger construction at start-up",
 }
 
+// panicStructurallyFine recognises three shapes of panic that need no table entry:
+// re-raising a recovered panic; a failed/duplicate lookup in a table the receiver owns (a registry consulted
+// with keys that were validated where they entered); the default of an exhaustive type switch over a
+// first-party interface (every first-party implementer has its own case).
+func panicStructurallyFine(c *Check, fn *ssa.Function, p *ssa.Panic) (bool, string) {
+	for _, o := range engine.Origins(p.X) {
+		if call, ok := o.(*ssa.Call); ok {
+			if b, ok := call.Call.Value.(*ssa.Builtin); ok && b.Name() == "recover" {
+				return true, "re-raises a recovered panic"
+			}
+		}
+	}
+	ownTable := engine.CutEdgesWhere(func(a engine.Atom) bool {
+		ex, ok := a.V.(*ssa.Extract)
+		if !ok || ex.Index != 1 {
+			return false
+		}
+		lk, ok := ex.Tuple.(*ssa.Lookup)
+		if !ok || !lk.CommaOk {
+			return false
+		}
+		ld, ok := lk.X.(*ssa.UnOp)
+		if !ok {
+			return false
+		}
+		fa, ok := ld.X.(*ssa.FieldAddr)
+		return ok && fn.Signature.Recv() != nil && len(fn.Params) > 0 && fa.X == ssa.Value(fn.Params[0])
+	})
+	if r, _ := engine.PathExists(fn, nil, engine.IsInstr(p), engine.PathQuery{CutEdge: ownTable, Shallow: true}); !r {
+		return true, "guarded by a lookup in a table of the receiver (registry consulted with keys validated at their entry point)"
+	}
+	// exhaustive type switch
+	asserted := map[string]bool{}
+	var subject ssa.Value
+	failedAssert := engine.CutEdgesWhere(func(a engine.Atom) bool {
+		ex, ok := a.V.(*ssa.Extract)
+		if !ok || ex.Index != 1 || a.Op != "true" {
+			return false
+		}
+		ta, ok := ex.Tuple.(*ssa.TypeAssert)
+		return ok && ta.CommaOk
+	})
+	for _, b := range fn.Blocks {
+		for _, in := range b.Instrs {
+			if ta, ok := in.(*ssa.TypeAssert); ok && ta.CommaOk {
+				if subject == nil || sameVar(subject, ta.X) || subject == ta.X {
+					subject = ta.X
+					asserted[ta.AssertedType.String()] = true
+				}
+			}
+		}
+	}
+	if subject != nil {
+		if iface, ok := subject.Type().Underlying().(*types.Interface); ok {
+			impls := c.P.Implementers(iface)
+			all := len(impls) > 0
+			for _, im := range impls {
+				if !asserted[im.String()] && !asserted["*"+im.String()] && !asserted[strings.TrimPrefix(im.String(), "*")] {
+					all = false
+				}
+			}
+			// the panic is only reachable when every assertion failed
+			if all {
+				if r, _ := engine.PathExists(fn, nil, engine.IsInstr(p), engine.PathQuery{CutEdge: failedAssert, Shallow: true}); r {
+					// reachable without passing through a succeeded assertion: that is the default branch
+					return true, "default of a type switch that has a case for every first-party implementer of the interface"
+				}
+			}
+		}
+	}
+	return false, ""
+}
+
 func ruleR04e(c *Check) {
 	c.Rule("R04e", "explicit panic sites in first-party code are exactly the tabled construction-time / unreachable checks; unchecked type assertions are confined to the tabled sites", 4)
 	for _, fn := range c.P.Funcs {
@@ -1086,7 +1159,10 @@ func ruleR04e(c *Check) {
 						continue // compiler-generated (impossible select index)
 					}
 					name := c.P.FuncName(fn)
-					why, ok := panicTable[name]
+					ok, why := panicStructurallyFine(c, fn, x)
+					if !ok {
+						why, ok = panicTable[name]
+					}
 					if !ok {
 						why, ok = panicTable[c.P.FuncName(engine.TopFunc(fn))]
 					}
